@@ -42,6 +42,8 @@ def coeff_of(t):
 
 def is_hamming_sum(F, t):
     """sum over zip(u.as_bytes(), v.as_bytes()) of count_ones(u ^ v)"""
+    if t[0] == 'phi':
+        return is_hamming_loop(t)
     if not (t[0] == 'call' and t[1].endswith('Iterator::sum')):
         return False
     z = [x for x in walk(t) if x[0] == 'call' and x[1].endswith('Iterator::zip')]
@@ -62,6 +64,50 @@ def is_hamming_sum(F, t):
             x = strip(s[2][0])
             okc = x[0] == 'call' and x[1].endswith('BitXor::bitxor') and _pair(('b', 'x', x[2][0], x[2][1]))
     return okc and srcs == {1, 2} and len(ab) == 2
+
+
+def is_hamming_loop(t):
+    """`let mut c = 0; for (a, b) in u.as_bytes().iter().zip(v.as_bytes()) { c += (a ^ b).count_ones() }`"""
+    zero = [a for a in t[2] if const_eval(a) == 0]
+    steps = [a for a in t[2] if const_eval(a) is None]
+    if len(zero) != 1 or len(steps) != 1:
+        return False
+    st = strip(steps[0])
+    if st[0] == 'field' and st[2] == '0' and strip(st[1])[0] == 'binop':
+        st = strip(st[1])
+    if st[0] != 'binop' or not st[1].startswith('Add'):
+        return False
+    x, y = strip(st[2]), strip(st[3])
+    if y[0] in ('phi', 'var') and y[1] == t[1]:
+        x, y = y, x
+    if not (x[0] in ('phi', 'var') and x[1] == t[1]):
+        return False
+    if not (y[0] == 'call' and y[1].endswith('>::count_ones')):
+        return False
+    xo = strip(y[2][0])
+    if not (xo[0] == 'call' and xo[1].endswith('BitXor::bitxor')) and not (xo[0] == 'binop' and xo[1] == 'BitXor'):
+        return False
+    a, b = (xo[2][0], xo[2][1]) if xo[0] == 'call' else (xo[2], xo[3])
+
+    def comp(e):
+        # which component of the zipped pair, and the zip call it comes from
+        for q in walk(e):
+            if q[0] == 'field' and q[2] in ('0', '1') and strip(q[1])[0] == 'field' and strip(strip(q[1])[1])[0] == 'downcast':
+                z = [w for w in walk(q) if w[0] == 'call' and w[1].endswith('Iterator::zip')]
+                if z:
+                    return q[2], z[0]
+        return None, None
+    ca, za = comp(a)
+    cb, zb = comp(b)
+    if ca is None or cb is None or {ca, cb} != {'0', '1'} or za[3] != zb[3]:
+        return False
+    srcs = set()
+    for side in za[2]:
+        for q in walk(side):
+            if q[0] == 'arg':
+                srcs.add(q[1])
+    ab = [q for q in walk(za) if q[0] == 'call' and q[1].endswith('as_bytes')]
+    return srcs == {1, 2} and len(ab) == 2
 
 
 def r_linear(ctx, rule='R-BQ-LINEAR'):
@@ -239,13 +285,39 @@ def r_pack_bits(ctx, rule='R-BQ-PACK'):
                 rv = st['rv']
                 if rv['k'] == 'binop' and rv['op'] in ('Shl', 'ShlUnchecked', 'Shr', 'Add', 'AddWithOverflow', 'BitOr', 'AddUnchecked') and (
                         'u64' in g.local_ty(st['place']['l']) or '(u64, bool)' in g.local_ty(st['place']['l'])):
-                    word_updates.append((rv['op'], g.term(rv['b'])))
-    shl = [o for o, b in word_updates if o.startswith('Shl') and const_eval(b) == 1]
-    add = [(o, b) for o, b in word_updates if (o.startswith('Add') or o == 'BitOr') and any(x[0] == 'call' and x[1].endswith('is_sign_positive') for x in walk(b))]
-    unneg = not neg and not any(x[0] == 'unop' and x[1] == 'Not' for o, b in add for x in walk(b))
-    ctx.check(len(rev) == 1 and len(sp_) == 1 and len(shl) == 1 and len(add) == 1 and unneg and not [o for o, b in word_updates if o == 'Shr'], rule, 'bit-order', f.loc(),
-              'word = (word << 1) + is_sign_positive(x) over the chunk in reverse: component i lands at bit i',
-              'the quantised packer does not place component i of a chunk at bit i with 1 = positive sign (rev %d, is_sign_positive %d, shl-by-1 %d, add-bit %d, un-negated %s)' % (len(rev), len(sp_), len(shl), len(add), unneg))
+                    word_updates.append((rv['op'], g.term(rv['b']), g.term(rv['a']), g))
+
+    def has_sp(t):
+        return any(x[0] == 'call' and x[1].endswith('is_sign_positive') for x in walk(t))
+    negated = bool(neg) or any(x[0] == 'unop' and x[1] == 'Not' for o, b, a, g in word_updates for x in list(walk(b)) + list(walk(a)) if has_sp(b) or has_sp(a))
+    shr = [o for o, b, a, g in word_updates if o.startswith('Shr')]
+    enum = [c for g in bodies for c in g.calls() if c.callee.endswith('Iterator::enumerate')]
+    # form A (Horner over the reversed chunk): word = (word << 1) + bit
+    shl1 = [o for o, b, a, g in word_updates if o.startswith('Shl') and const_eval(b) == 1]
+    acc = [(o, b, a) for o, b, a, g in word_updates if (o.startswith('Add') or o == 'BitOr') and (has_sp(b) or has_sp(a))]
+    other_shl = [o for o, b, a, g in word_updates if o.startswith('Shl') and const_eval(b) != 1]
+    form_a = len(rev) == 1 and len(shl1) == 1 and len(acc) == 1 and not enum and not other_shl
+    # form B (indexed, forward): word |= bit << i with i the position in the chunk (enumerate from 0, no rev/skip)
+    form_b = False
+    if len(enum) == 1 and not rev:
+        src = enum[0].arg_term(0)
+        plain = not any(x[0] == 'call' and x[1].endswith(('Iterator::rev', 'Iterator::skip', 'Iterator::step_by', 'Iterator::skip_while', 'Iterator::filter', 'Iterator::chain')) for x in walk(src))
+        shl_idx = []
+        for o, b, a, g in word_updates:
+            if o.startswith('Shl') and has_sp(a) and const_eval(b) is None:
+                # the amount is the first component of the enumerated pair, unmodified
+                amt = strip(b)
+                while amt[0] == 'cast':
+                    amt = strip(amt[2])
+                is_index = amt[0] == 'field' and amt[2] == '0' and (
+                    (root(amt)[0] == 'arg' and g.local_ty(root(amt)[1]).startswith('(usize,')) or
+                    any(x[0] == 'call' and x[1].endswith('Iterator::next') for x in walk(amt)))
+                shl_idx.append(is_index)
+        form_b = plain and shl_idx == [True] and len(acc) == 1 and not shl1
+    ctx.check((form_a or form_b) and len(sp_) == 1 and not negated and not shr, rule, 'bit-order', f.loc(),
+              ('word = (word << 1) + is_sign_positive(x) over the chunk in reverse' if form_a else 'word |= is_sign_positive(x) << i over the enumerated chunk') + ': component i lands at bit i',
+              'the quantised packer does not place component i of a chunk at bit i with 1 = positive sign (rev %d, enumerate %d, is_sign_positive %d, shl-by-1 %d, accumulate %d, un-negated %s)' % (
+                  len(rev), len(enum), len(sp_), len(shl1), len(acc), not negated))
 
 
 def r_len(ctx, rule='R-BQ-LEN'):
@@ -263,13 +335,80 @@ def r_len(ctx, rule='R-BQ-LEN'):
         ctx.check(good, rule, 'len', f.loc(), 'len = bytes / 8 * 64', 'BinaryQuantized::len is not bytes/8*64')
     z = F.impl_method('UnalignedVectorCodec', 'unaligned_vector::binary_quantized::BinaryQuantized', 'is_zero')
     if ctx.need(z is not None, rule, 'BinaryQuantized::is_zero'):
-        clo = F.closures_of(z)
-        good = False
-        for g in clo:
-            for b, k, t in paths.ret_assigns(g):
-                s = strip(t)
-                good = s[0] == 'binop' and s[1] == 'Eq' and const_eval(s[3]) == 0
-        ctx.check(good and any(c.callee.endswith('Iterator::all') for c in z.calls()), rule, 'is_zero', z.loc(), 'all bytes == 0', 'BinaryQuantized::is_zero is not "all bytes are 0"')
+        good = all_zero_predicate(F, z)
+        ctx.check(good, rule, 'is_zero', z.loc(), 'all bytes == 0', 'BinaryQuantized::is_zero is not "all bytes are 0"')
+
+
+def all_zero_predicate(F, z):
+    """the function returns `iter.all(|x| x == 0)` or `!iter.any(|x| x != 0)` (the two spellings of "every element is zero")"""
+    rets = [strip(t) for b, k, t in paths.ret_assigns(z)]
+    if len(rets) != 1:
+        return False
+    t = rets[0]
+    neg = False
+    while t[0] == 'unop' and t[1] == 'Not':
+        t = strip(t[2])
+        neg = not neg
+    if t[0] != 'call' or len(t[2]) != 2:
+        return False
+    want = None
+    if t[1].endswith('Iterator::all') and not neg:
+        want = 'Eq'
+    elif t[1].endswith('Iterator::any') and neg:
+        want = 'Ne'
+    clo = strip(t[2][1])
+    if want is None or clo[0] != 'closure' or F.fn(clo[1]) is None:
+        return False
+    g = F.fn(clo[1])
+    rs = [strip(x) for b, k, x in paths.ret_assigns(g)]
+    return bool(rs) and all(r[0] == 'binop' and r[1] == want and root_is_param(r[2]) and const_eval(r[3]) == 0 for r in rs)
+
+
+def root_is_param(t):
+    from rules import root
+    r = root(t)
+    return r[0] == 'arg' and r[1] == 2
+
+
+def linear_form(t, atoms=None, depth=0):
+    """{atom key: integer coefficient, None: constant} of an index expression built from +, * const, << const;
+    `atoms` (optional dict) receives key -> atom term"""
+    t0 = strip(t)
+    if depth > 20:
+        return None
+    if t0[0] == 'field' and t0[2] == '0' and strip(t0[1])[0] == 'binop' and strip(t0[1])[1].endswith('WithOverflow'):
+        t0 = strip(t0[1])
+    c = const_eval(t0)
+    if c is not None:
+        return {None: c}
+    if t0[0] == 'cast':
+        return linear_form(t0[2], atoms, depth + 1)
+    if t0[0] == 'binop':
+        op = t0[1]
+        if op.startswith('Add'):
+            x, y = linear_form(t0[2], atoms, depth + 1), linear_form(t0[3], atoms, depth + 1)
+            if x is None or y is None:
+                return None
+            out = dict(x)
+            for k, v in y.items():
+                out[k] = out.get(k, 0) + v
+            return out
+        if op.startswith('Mul') or op.startswith('Shl'):
+            k = const_eval(t0[3])
+            other = t0[2]
+            if k is None and op.startswith('Mul'):
+                k = const_eval(t0[2])
+                other = t0[3]
+            if k is None:
+                return None
+            if op.startswith('Shl'):
+                k = 1 << k
+            x = linear_form(other, atoms, depth + 1)
+            return {a: v * k for a, v in x.items()} if x is not None else None
+    key = repr(strip_all(t0))
+    if atoms is not None:
+        atoms[key] = t0
+    return {key: 1}
 
 
 def r_mask(ctx, rule='R-MASK'):
@@ -289,7 +428,7 @@ def r_mask(ctx, rule='R-MASK'):
     ctx.check([1, 2, 4, 8] in arrays and [16, 32, 64, 128] in arrays, rule, 'mask-arrays', f.loc(), 'masks 1<<0..1<<3 and 1<<4..1<<7',
               'the SSE decoder mask arrays are %s instead of [1,2,4,8] and [16,32,64,128]' % arrays)
     se = [c for c in f.calls() if short(c.callee) == '_mm_set_epi32']
-    good = False
+    good = bool(se)
     for c in se:
         idx = []
         for i in range(4):
@@ -300,8 +439,43 @@ def r_mask(ctx, rule='R-MASK'):
                 idx.append(t[2])
             else:
                 idx.append(None)
-        good = idx == [3, 2, 1, 0]
+        good = good and idx == [3, 2, 1, 0]
     ctx.check(good, rule, 'lane-order', se[0].loc() if se else f.loc(), '_mm_set_epi32(mask[3], mask[2], mask[1], mask[0]): lane i tests bit i', 'the mask lanes are not loaded in lane order')
+
+    # the pair of masks enumerated per byte: group 0 = low nibble, group 1 = high nibble
+    def mask_values(e):
+        e0 = strip(e)
+        if e0[0] == 'array' and len(e0[1]) == 4:
+            vals = [const_eval(x) for x in e0[1]]
+            return vals if all(v is not None for v in vals) else None
+        if e0[0] == 'call' and short(e0[1]) == '_mm_set_epi32' and len(e0[2]) == 4:
+            lanes = []
+            for a in reversed(e0[2]):
+                a0 = strip(a)
+                while a0[0] == 'cast':
+                    a0 = strip(a0[2])
+                if a0[0] == 'cindex':
+                    base = mask_values(a0[1])
+                    lanes.append(base[a0[2]] if base and a0[2] < 4 else None)
+                elif a0[0] == 'index':
+                    base = mask_values(a0[1])
+                    k = const_eval(f.local_term(a0[2]))
+                    lanes.append(base[k] if base and k is not None and k < 4 else None)
+                else:
+                    lanes.append(const_eval(a0))
+            return lanes if all(v is not None for v in lanes) else None
+        return None
+    groups = []
+    for bi, blk in enumerate(f.blocks):
+        for si, st in enumerate(blk['stmts']):
+            rv = st['rv']
+            if rv['k'] == 'agg' and rv.get('agg') == 'array' and len(rv['ops']) == 2 and not blk['cleanup']:
+                t = f._def_term(('assign', bi, si, rv, []), 0, frozenset())
+                vals = [mask_values(e) for e in strip(t)[1]] if strip(t)[0] == 'array' else [None]
+                if all(v is not None for v in vals):
+                    groups.append(vals)
+    ctx.check(groups == [[[1, 2, 4, 8], [16, 32, 64, 128]]], rule, 'group-order', f.loc(), 'group 0 tests bits 0..3, group 1 bits 4..7',
+              'the SSE decoder does not enumerate the low-nibble masks first and the high-nibble masks second: %s' % groups)
     bl = [c for c in f.calls() if short(c.callee) == '_mm_blendv_ps']
     okb = False
     for c in bl:
@@ -317,13 +491,19 @@ def r_mask(ctx, rule='R-MASK'):
     for c in stc:
         p = strip(c.arg_term(0))
         if p[0] == 'call' and p[1].endswith('::add'):
-            off = strip(p[2][1])
-            off = off[1] if off[0] == 'field' else off
-            if off[0] == 'binop' and off[1].startswith('Add'):
-                x, y = strip(off[2]), strip(off[3])
-                x = x[1] if x[0] == 'field' else x
-                y = y[1] if y[0] == 'field' else y
-                oks = x[0] == 'binop' and x[1].startswith('Mul') and const_eval(x[3]) == 8 and y[0] == 'binop' and y[1].startswith('Mul') and const_eval(y[3]) == 4
+            terms = {}
+            lin = linear_form(p[2][1], terms)
+            if lin is not None and lin.get(None, 0) == 0:
+                atoms = {k: v for k, v in lin.items() if k is not None}
+                by_coef = {v: terms[k] for k, v in atoms.items()}
+                if len(atoms) == 2 and set(by_coef) == {8, 4}:
+                    def enum_index(t, over_bytes):
+                        t0 = strip(t)
+                        is_idx = t0[0] == 'field' and t0[2] == '0' and any(x[0] == 'call' and x[1].endswith('Iterator::next') for x in walk(t0)) \
+                            and any(x[0] == 'call' and x[1].endswith('Iterator::enumerate') for x in walk(t0))
+                        from_bytes = any(x[0] == 'call' and x[1].endswith('::as_bytes') for x in walk(t0))
+                        return is_idx and from_bytes == over_bytes
+                    oks = enum_index(by_coef[8], True) and enum_index(by_coef[4], False)
     ctx.check(oks, rule, 'store-offset', stc[0].loc() if stc else f.loc(), 'stored at byte*8 + i*4', 'the SSE decoder does not store each group of 4 lanes at byte*8 + i*4')
 
 
